@@ -24,6 +24,7 @@ ODD = {
     "only_comment": "/* nothing here */\n",
 }
 FAULTS += list(ODD)
+FAULTS += ["link_to_an_output"]   # <name>.css -> a_cm.css: an output reached under an input-looking name is still not an input
 LINKED = ".k {\n  color: var(--t, #888);\n  background-color: #fff;\n}\n"   # reached through a symlink / in a hidden, deeply nested file
 LATE = ":root {\n  --t: #222;\n}\n.v {\n  color: var(--t);\n}\n.u {\n  *zoom: 1;\n  color: #777;\n}\n"   # fails after its :root was indexed
 FAULT_POS = ["0.css", "b.css", "n.css", "sub/y.css", "sub/deep/er/.hidden.css"]
@@ -53,6 +54,8 @@ def make_fault(w, rel, kind):
         target = os.path.join(w.path, "linked-target.txt")   # not a .css name: only reachable through the link
         open(target, "w").write(LINKED)
         os.symlink(target, p)
+    elif kind == "link_to_an_output":
+        os.symlink(os.path.join(w.path, "a_cm.css"), p)   # dangling until (unless) a.css has been processed
     elif kind in ODD:
         open(p, "wb").write(ODD[kind].encode("utf-8"))
     elif kind == "stale_output":
